@@ -559,8 +559,10 @@ def f6_increase_corrections(ctx) -> None:
                             ctx.ok("F6", f"parent correction: every finite shift of a rule pumping {cc} decreases by one")
                         else:
                             ctx.violation("F6", st, f"the parent's value rose by one, so each finite shift of its rules must become `{v} - 1`; found `{norm(arm)}`")
-            elif isinstance(inner, (ast.Assign,)) and isinstance(inner.targets[0], ast.Subscript) and norm(inner.targets[0].value) == "self._shifts" \
-                    and norm(inner.targets[0].slice) == r and isinstance(inner.value, ast.ListComp):
+            elif isinstance(inner, (ast.Assign,)) and isinstance(inner.targets[0], ast.Subscript) and isinstance(inner.value, ast.ListComp) and (
+                    (norm(inner.targets[0].value) == "self._shifts" and norm(inner.targets[0].slice) == r)
+                    or (norm(inner.targets[0].value) in rows and isinstance(inner.targets[0].slice, ast.Slice)
+                        and inner.targets[0].slice.lower is None and inner.targets[0].slice.upper is None and inner.targets[0].slice.step is None)):
                 lc = inner.value
                 if len(lc.generators) == 1 and norm(lc.generators[0].iter) in rows and not lc.generators[0].ifs:
                     v = norm(lc.generators[0].target)
